@@ -480,7 +480,7 @@ fn run_scn(scn: &Scn, qs: &[Pfx]) -> Outcome {
             // a returning peer turned away because its ended session is still in live_sessions
             let Op::Conn(a, n) = &scn.ops[opi] else { continue };
             let stale = got == "rejected" && *w == "neg" && tr.iter().any(|t| t.addr == *a && t.asn == *n && t.ended_at.map(|e| e < opi).unwrap_or(false));
-            if stale { reconnect_blocked = true; } else { fails.push(format!("accept:decision-differs op {opi} {} expected {w} got {got}", show_op(&scn.ops[opi]))); }
+            if stale { reconnect_blocked = true; let ci = scn.ops[..opi].iter().filter(|o| matches!(o, Op::Conn(..))).count(); if let Some(t) = tr.get_mut(ci) { t.est = false; } } else { fails.push(format!("accept:decision-differs op {opi} {} expected {w} got {got}", show_op(&scn.ops[opi]))); }
         }
     }
     // ids: the id under which a connection's updates arrived
@@ -653,6 +653,9 @@ fn witnesses(pool: &[Pfx]) -> Vec<Scn> {
         // hold-timer expiry, then the peer returns
         Scn { cfg: vec![e(Key::Exact(p1), Asns::One(65001), 3)],
               ops: vec![Op::Conn(p1, 65001), Op::Upd(0, u(6, vec![0], vec![])), Op::Hold(0), Op::Conn(p1, 65001)] },
+        // a header declaring length 7 on an established session, then the peer returns
+        Scn { cfg: vec![e(Key::Exact(p1), Asns::One(65001), 0)],
+              ops: vec![Op::Conn(p1, 65001), Op::Upd(0, u(8, vec![0], vec![])), Op::Garbage(0, 0), Op::Conn(p1, 65001)] },
         // unit termination with a session up
         Scn { cfg: vec![e(Key::Prefix(16, p1 >> 16), Asns::Many(vec![]), 0)],
               ops: vec![Op::Conn(p1, 65001), Op::Upd(0, u(7, vec![0], vec![])), Op::Terminate] },
@@ -694,8 +697,16 @@ fn main() {
             outs
         })
     }).collect();
-    for h in wh { if let Ok(o) = h.join() { record(&mut rec, o); } }
+    let mut fsmdrop = "as-written";
+    let mut frame = "as-written";
+    for h in wh { if let Ok(o) = h.join() {
+        // defect-site variants, from the witnesses' own observations
+        if o.case.contains(" h:0 ") && o.imp.contains("expired-ended") { fsmdrop = "repaired"; }
+        if o.case.contains(" g:0:0 ") && o.imp.split_whitespace().nth(2).map(|t| t.starts_with("ended")).unwrap_or(false) { frame = "repaired"; }
+        record(&mut rec, o);
+    } }
     for h in handles { if let Ok(v) = h.join() { for o in v { record(&mut rec, o); } } }
-    rec.variant("bgpend", "as-written");
+    rec.variant("fsmdrop", fsmdrop);
+    rec.variant("frame", frame);
     rec.finish(&args, t0.elapsed().as_secs_f64());
 }
